@@ -161,3 +161,99 @@ func VH_C06_mark_paths() {
 		vAssert(len(q.called) == 2, "C06.mark.longer-path-is-distinct")
 	}
 }
+
+// Close while a call is still running: the call's context is cancelled, Close waits for it, and a
+// capability the late return places in its results is released like every other export - after
+// Close nothing the connection held stays alive.
+func VH_C07_close_with_call_in_flight() {
+	t := &vTransport{}
+	c := vNewConn(t, nil)
+	hold := &vHoldHook{}
+	boot := &vRecvHook{}
+	vAssume(c.exportID.next() == 0)
+	c.exports = []*expent{{client: capnp.NewClient(hold), wireRefs: 1}}
+	_ = boot
+	m := vRecvMsg()
+	call, err := m.NewCall()
+	vAssume(err == nil)
+	call.SetQuestionId(vNondetU32())
+	tgt, err := call.NewTarget()
+	vAssume(err == nil)
+	tgt.SetImportedCap(0)
+	pl, err := call.NewParams()
+	vAssume(err == nil)
+	args, err := capnp.NewStruct(pl.Segment(), capnp.ObjectSize{DataSize: 8})
+	vAssume(err == nil && pl.SetContent(args.ToPtr()) == nil)
+	herr := c.handleCall(c.bgctx, call, func() {})
+	vAssume(herr == nil && hold.got)
+	res := &vRecvHook{}
+	withCap := vNondetBool()
+	returned := false
+	// the application: returns when it notices the cancellation
+	go func() {
+		<-hold.ctx.Done()
+		if withCap {
+			s, err := hold.r.Returner.AllocResults(capnp.ObjectSize{PointerCount: 1})
+			if err == nil {
+				id := s.Message().AddCap(capnp.NewClient(res))
+				_ = s.SetPtr(0, capnp.NewInterface(s.Segment(), id).ToPtr())
+			}
+		}
+		hold.r.ReleaseArgs()
+		if withCap {
+			hold.r.Returner.Return(nil)
+		} else {
+			hold.r.Returner.Return(vFault{})
+		}
+		returned = true
+	}()
+	cerr := c.Close()
+	vReach("closed")
+	vAssert(cerr == nil, "C07.close.ok")
+	vAssert(returned, "C07.close.waits-for-the-running-call")
+	vQuiescent(c, "C07.close")
+	for i := range c.exports {
+		vAssert(c.exports[i] == nil, "C07.close.export-table-emptied")
+	}
+	if withCap {
+		vAssert(res.shutdowns == 1, "C07.close.late-result-capability-released-exactly-once")
+	}
+	vAssert(t.closes == 1, "C07.close.transport-closed-once")
+}
+
+// The last local reference to an import is released while - in the window in which the Release
+// message is being written and Conn.mu is free - the receive loop imports the SAME id again (a
+// Return carrying senderHosted(id)). The new reference is a live import with its own table entry
+// and its own wire reference; releasing it later sends a second Release; nothing panics or hangs.
+func VH_C07_import_release_window() {
+	t := &vTransport{}
+	c := vNewConn(t, nil)
+	id := importID(vNondetU32())
+	c.mu.Lock()
+	cl := c.addImport(id)
+	c.mu.Unlock()
+	var cl2 *capnp.Client
+	t.onSend = func(w rpccp.Message_Which) {
+		if w == rpccp.Message_Which_release && cl2 == nil {
+			c.mu.Lock()
+			cl2 = c.addImport(id)
+			c.mu.Unlock()
+		}
+	}
+	cl.Release()
+	vReach("first-released")
+	vQuiescent(c, "C07.window.first")
+	vAssert(cl2 != nil, "C07.window.release-message-was-sent")
+	if cl2 == nil {
+		return
+	}
+	ent := c.imports[id]
+	vAssert(ent != nil && ent.wireRefs == 1, "C07.window.reimported-entry-survives-the-old-release")
+	vAssert(len(t.releaseIDs) == 1 && t.releaseIDs[0] == uint32(id) && t.releaseCounts[0] == 1, "C07.window.first-release-counts-one")
+	t.onSend = nil
+	cl2.Release()
+	vReach("second-released")
+	vQuiescent(c, "C07.window.second")
+	vAssert(c.imports[id] == nil, "C07.window.entry-removed-after-last-release")
+	vAssert(len(t.releaseIDs) == 2 && t.releaseIDs[1] == uint32(id) && t.releaseCounts[1] == 1, "C07.window.second-release-sent")
+}
